@@ -11,7 +11,7 @@ from harness import core
 
 ID = 'C25'
 TITLE = 'Migrations are total and reach the current schema'
-PROPS = ['Props/C25', 'Props/C25_bodies']
+PROPS = ['Props/C25', 'Props/C25_bodies', 'Props/C25_bodies2']
 RULE = ('Documents "at version K" are generated offline for every K in 0..SCHEMA_VERSION: the version-0 schema of '
         'test_migrations + the real migrations 1..K give the version-K metadata schema; every metadata table gets 0-3 '
         'rows of type-correct cells in the form create_migrations receives them (references to existing rows or 0, '
@@ -56,12 +56,12 @@ LEVEL_TEXT = ('kernel. Driver and interpreter, for ALL migration functions: a cu
               'is determined by the schema-action subsequence. Migration BODIES (all 46 modelled, each tied to the real '
               'emitted actions on every run): proved total - the body returns for every Text cell content (JSON parsing an '
               'oracle: any value or failure) and what it emits applies - on documents satisfying a stated, decidable, '
-              'type-correctness premise for migrations 4, 10, 15, 16, 29, 34, 35, 39, 45 and for the 24 constant-body '
+              'type-correctness premise for migrations 4, 10, 15, 16, 25, 26, 28, 29, 30, 34, 35, 39, 40, 45 and for the 24 constant-body '
               'migrations 5, 6, 8, 9, 11, 12, 13, 18, 19, 21, 22, 23, 24, 27, 32, 33, 36, 37, 38, 41, 42, 43, 44, 46 '
-              '(generic theorem on translated lists) = 33 of 46; migration 7: the body returns under the premise that '
+              '(generic theorem on translated lists) = 38 of 46; migration 7: the body returns under the premise that '
               'excludes names like Summary_Foo (C25_m7_body_total) and raises without it (C25_m7_refuted, the known '
-              'finding); migration 14: constant body. NOT proved total (modelled and tied only): 1, 2, 3, 17, 20, 25, 26, '
-              '28, 30, 31, 40, the application of what 7 and 14 emit, and that the metadata schema reached equals '
+              'finding); migration 14: constant body. NOT proved total (modelled and tied only): 1, 2, 3, 17, 20, 31, '
+              'the application of what 7 and 14 emit, and that the metadata schema reached equals '
               'schema_create_actions() (searched on generated documents of every version).')
 LEVEL_NOTE = ('Trusted: Coq kernel; the hand-written models (each tied by exact replay every run); the oracles json, re, '
               'identifiers.pick_*_ident, float division; the unmodelled loading prelude. The premises of the totality '
@@ -1240,19 +1240,21 @@ def correspond(ctx):
   for i in bad[:3]:
     r, d, a, b = runs[i]
     if ctx.run_cases('link_b%d' % i, IMPORTS, BODIES_CHECK, [b], extra_defs=POOL.defs_for, case_type=BODIES_TYPE):
-      for v in modelled():
-        if v in [x for x, _ in r.rec] and ctx.run_cases(
-            'link_b%d_%d' % (i, v), IMPORTS, "fun c => let '(o, T0, rec) := c in check_body_at const_bodies (%s) o T0 rec" % core.zlit(v),
-            [b], extra_defs=POOL.defs_for, case_type=BODIES_TYPE):
+      # which version: one more evaluation, of check_body_at for every modelled version v (body differs) and -v
+      # (the document is outside the premise of that body's totality theorem)
+      vs = [v for v in modelled() if v in [x for x, _ in r.rec]]
+      bad_vs = ctx.run_cases(
+        'link_bv%d' % i, IMPORTS, "fun v => let '(o, T0, rec) := the_b in check_body_at const_bodies v o T0 rec",
+        [core.zlit(v) for v in vs] + ['(%s)' % core.zlit(-v) for v in vs], shard=1000,
+        extra_defs=lambda part: POOL.defs_for([b]) + '\nDefinition the_b : %s := %s.' % (BODIES_TYPE, b), case_type='Z')
+      for k in bad_vs:
+        v = (vs + [-x for x in vs])[k]
+        if v > 0:
           ctx.broken('correspondence:modelled body of migration %d differs from the real migration' % v,
                      'document at version %d; real actions %r' % (r.doc.version, dict(r.rec)[v]))
-        if v in [x for x, _ in r.rec] and ctx.run_cases(
-            'link_p%d_%d' % (i, v), IMPORTS, "fun c => let '(o, T0, rec) := c in check_body_at const_bodies (%s) o T0 rec" % core.zlit(-v),
-            [b], extra_defs=POOL.defs_for, case_type=BODIES_TYPE):
-          ctx.broken('premise:a generated document is outside the hypotheses of the totality theorem of migration %d' % v,
+        else:
+          ctx.broken('premise:a generated document is outside the hypotheses of the totality theorem of migration %d' % -v,
                      'document at version %d' % r.doc.version)
-    where = 'document at version %d (metadata_only=%r), migrations run %r' % (
-      r.doc.version, r.metadata_only, [v for v, _ in r.rec])
     if ctx.run_cases('link_d%d' % i, IMPORTS, DRIVER_CHECK, [d], extra_defs=POOL.defs_for, case_type=DRIVER_TYPE):
       ctx.broken('correspondence:driver model differs from migrations.create_migrations', where)
     if ctx.run_cases('link_a%d' % i, IMPORTS, APPLY_CHECK, [a], extra_defs=POOL.defs_for, case_type=APPLY_TYPE):
